@@ -5,26 +5,8 @@
 (* levels, every dependency pattern on earlier tasks with gap 0 / half a slot / one    *)
 (* slot and on-start edges, optional pinned start, optional 2-member team, optional    *)
 (* daily limit.  Hour slots, one real week (Monday 00:00 + 169 slots).                 *)
-EXTENDS Sched
+EXTENDS MCLib
 CONSTANT Slice               \* "quick" | "full"
-NoHours == << <<>>, <<>>, <<>>, <<>>, <<>>, <<>>, <<>> >>
-Aft == << << <<780, 1080>> >>, << <<780, 1080>> >>, << <<780, 1080>> >>, << <<780, 1080>> >>, << <<780, 1080>> >>, <<>>, <<>> >>
-DLim(h) == IF h = 0 THEN <<>> ELSE << [kind |-> "d", val |-> h, valSec |-> h * 3600, res |-> 0, periods |-> 0] >>
-Res1(h, lm) == [name |-> "r", parent |-> 0, leaf |-> TRUE, effN |-> 1, effD |-> 1, cal |-> "default", hours |-> NoHours,
-         leaves |-> <<>>, tz |-> << <<0, 0>> >>, limits |-> DLim(h), lmul |-> lm]
-Res2(en, lm) == [name |-> "q", parent |-> 0, leaf |-> TRUE, effN |-> en, effD |-> 1, cal |-> "hours", hours |-> Aft,
-         leaves |-> <<>>, tz |-> << <<0, 0>> >>, limits |-> <<>>, lmul |-> lm]
-Dep(p, g, os) == [p |-> p, onstart |-> os, gap |-> g, clone |-> FALSE, maxgap |-> FALSE, gaplen |-> FALSE]
-Names == <<"c", "a", "b", "d">>
-Task(i, par, eff, pr, al, deps, pin) == [name |-> Names[i], parent |-> par, leaf |-> TRUE, seq |-> i, prio |-> pr,
-     effort |-> eff, effortExact |-> TRUE, milestone |-> FALSE, other |-> FALSE, deps |-> deps, alloc |-> al, alt |-> <<>>,
-     pin |-> pin, inhStart |-> -1, pinEnd |-> -1, fwd |-> TRUE, expl |-> FALSE, flags |-> <<>>, limits |-> <<>>]
-Cont(i, deps) == [name |-> Names[i], parent |-> 0, leaf |-> FALSE, seq |-> i, prio |-> 500,
-     effort |-> 0, effortExact |-> TRUE, milestone |-> FALSE, other |-> FALSE, deps |-> deps, alloc |-> <<>>, alt |-> <<>>,
-     pin |-> -1, inhStart |-> -1, pinEnd |-> -1, fwd |-> TRUE, expl |-> FALSE, flags |-> <<>>, limits |-> <<>>]
-Frame(res, tasks, L) == [G |-> 3600, N |-> 169, declN |-> 169, mow |-> 0, sos |-> 0, endSec |-> 604800, declEndSec |-> 604800,
-     L |-> L, cstep |-> 3600, vac |-> <<>>, gleaves |-> <<>>, alap |-> FALSE, res |-> res, tasks |-> tasks]
-
 Quick == Slice = "quick"
 Effs  == IF Quick THEN {1, 2} ELSE {1, 2, 3}
 Gaps  == {0, 1800, 3600}
